@@ -4,6 +4,8 @@ import (
 	"bytes"
 	"fmt"
 
+	"github.com/xinchentechnote/fin-proto-go/codec"
+
 	"verif/internal/gen"
 	"verif/internal/schema"
 	"verif/internal/val"
@@ -15,6 +17,9 @@ var tailNames = []string{"empty", "random-bytes", "another-valid-image", "the-sa
 
 func c07(e *Env) {
 	r := e.R
+	if isAbsentChild(e) {
+		codec.Clear()
+	}
 	r.Rule("every type × canonical values (as C01) × 4 trailing byte strings {empty, 1..64 random bytes, another valid image of the type, the image itself}; plus streams: 2..30 frames of mixed body types per frame type, per-module sequences of body messages in a known type order, once concatenated from individual encodings, once produced through one shared send buffer, and once decoded into one reused receiver object per type (a read loop). distinct_nontrivial = distinct (value hash, tail kind) with a non-empty image + distinct streams")
 	r.Explain("Oracle: after Decode(image‖tail) the buffer's unread bytes are exactly tail, byte for byte, and the decoded message ≡ the original (computed fields = their correct values). Streams: n successive decodes return the n originals in order and leave the buffer empty.")
 	types := e.Types()
@@ -184,4 +189,7 @@ func c07(e *Env) {
 		})
 	}
 	r.Set("observations", acc.m)
+	if !isAbsentChild(e) {
+		runAbsentChild(e) // consumption must not depend on whether a checksum service is registered
+	}
 }
